@@ -105,8 +105,10 @@ def encode_list(obj: Union[list[Any], set[Any], tuple[Any, ...]]) -> list[Any]:
 
 @encode.register(Mapping)
 def encode_dict(obj: Mapping) -> dict[Any, Any]:
-    constructor = type(obj)
-    result = constructor()
+    # Always build a plain `dict` (insertion-ordered): keeping `type(obj)` let an `OrderedDict` (or any
+    # other Mapping subclass) survive into the output of `to_dict`, which `yaml.safe_dump` refuses and
+    # `yaml.dump` writes with python-specific tags that `yaml.safe_load` cannot read back.
+    result: dict = {}
     for k, v in obj.items():
         k_ = encode(k)
         v_ = encode(v)
